@@ -89,7 +89,13 @@ def branch_templates(ctx, rule):
     def is_R(c):
         if c[0] == "method" and c[1] == "startswith" and c[2] == url and c[3] == (("const", "//"),):
             return True
-        return c[0] == "cmp" and c[1] == "Eq" and c[3] == ("const", "//") and c[2][0] == "slice" and c[2][1] == url and c[2][2] in (("const", None), ("const", 0)) and c[2][3] == ("const", 2)
+        if c[0] == "cmp" and c[1] == "Eq" and c[3] == ("const", "//") and c[2][0] == "slice" and c[2][1] == url and c[2][2] in (("const", None), ("const", 0)) and c[2][3] == ("const", 2):
+            return True
+        # `PROTOCOL_RE.match(url).group() == "//"`: the matched protocol is the bare '//' -- the same test, because
+        # PROTOCOL_RE is a prefix code containing '//' (rule R1), so a url starting with '//' matches exactly '//'
+        if c[0] == "cmp" and c[1] == "Eq" and c[3] == ("const", "//") and c[2][0] == "method" and c[2][1] == "group" and c[2][3] in ((), (("const", 0),)) and is_M(c[2][2]):
+            return True
+        return False
 
     def whole(parent, leaf):
         if parent[0] == "binop" and parent[1] in ("Add", "Mod"):
